@@ -12,6 +12,7 @@ import (
 	"go/types"
 	"golang.org/x/tools/go/ssa"
 	"reflect"
+	"sort"
 	"strings"
 )
 
@@ -86,7 +87,20 @@ var expectedTags = map[string]map[string]string{
 	repoModule + "/types.EncryptedKey":     {"X509Data": "KeyInfo>X509Data>X509Certificate", "CipherValue": "CipherData>CipherValue", "EncryptionMethod": ""},
 	repoModule + "/types.EncryptionMethod": {"Algorithm": ",attr,omitempty", "DigestMethod": ",omitempty"},
 	repoModule + "/types.DigestMethod":     {"Algorithm": ",attr,omitempty"},
+	repoModule + "/types.EntityDescriptor": {"XMLName": "urn:oasis:names:tc:SAML:2.0:metadata EntityDescriptor", "ValidUntil": "validUntil,attr",
+		"EntityID": "entityID,attr", "SPSSODescriptor": "SPSSODescriptor,omitempty"},
+	repoModule + "/types.SPSSODescriptor": {"XMLName": "urn:oasis:names:tc:SAML:2.0:metadata SPSSODescriptor", "AuthnRequestsSigned": "AuthnRequestsSigned,attr",
+		"WantAssertionsSigned": "WantAssertionsSigned,attr", "ProtocolSupportEnumeration": "protocolSupportEnumeration,attr", "KeyDescriptors": "KeyDescriptor",
+		"SingleLogoutServices": "SingleLogoutService", "AssertionConsumerServices": "AssertionConsumerService"},
+	repoModule + "/types.KeyDescriptor": {"XMLName": "urn:oasis:names:tc:SAML:2.0:metadata KeyDescriptor", "Use": "use,attr", "KeyInfo": "KeyInfo",
+		"EncryptionMethods": "EncryptionMethod"},
+	repoModule + "/types.IndexedEndpoint": {"Binding": "Binding,attr", "Location": "Location,attr", "Index": "index,attr"},
+	repoModule + "/types.Endpoint":        {"Binding": "Binding,attr", "Location": "Location,attr", "ResponseLocation": "ResponseLocation,attr,omitempty"},
 }
+
+// metadataStructs: what the SP publishes (C19); attribute and element names as in saml-schema-metadata-2.0.xsd.
+var metadataStructs = []string{repoModule + "/types.EntityDescriptor", repoModule + "/types.SPSSODescriptor", repoModule + "/types.KeyDescriptor",
+	repoModule + "/types.IndexedEndpoint", repoModule + "/types.Endpoint"}
 
 // xmlencStructs: the XML-Encryption part of the binding (what DecryptSymmetricKey / DecryptBytes dispatch on).
 var xmlencStructs = []string{repoModule + "/types.EncryptedAssertion", repoModule + "/types.EncryptedKey", repoModule + "/types.EncryptionMethod", repoModule + "/types.DigestMethod"}
@@ -126,6 +140,22 @@ func tagsCheck(structs []string, fields func(string) bool) func(w *World) (bool,
 		}
 		return true, fmt.Sprintf("%d struct tags agree with the SAML schema binding", n)
 	}
+}
+
+// decodeStructs: the inbound message structs (everything in the table except the metadata types).
+func decodeStructs() []string {
+	md := map[string]bool{}
+	for _, m := range metadataStructs {
+		md[m] = true
+	}
+	var out []string
+	for k := range expectedTags {
+		if !md[k] {
+			out = append(out, k)
+		}
+	}
+	sort.Strings(out)
+	return out
 }
 
 func allExpectedStructs() []string {
@@ -210,7 +240,32 @@ var schemaChecks = []schemaCheck{
 	}},
 	{"schema.tags.flags", []string{"C04", "C01", "C10"}, tagsCheck([]string{repoModule + "/types.Response", repoModule + "/types.Assertion",
 		repoModule + "/types.LogoutResponse", repoModule + ".LogoutRequest"}, func(f string) bool { return f == "SignatureValidated" })},
-	{"schema.tags.decode", []string{"C08", "C01"}, tagsCheck(allExpectedStructs(), nil)},
+	{"schema.tags.decode", []string{"C08", "C01", "C03", "C05", "C06", "C10"}, tagsCheck(decodeStructs(), nil)},
+	{"schema.tags.metadata", []string{"C19"}, tagsCheck(metadataStructs, nil)},
+	{"schema.encode.reflective", []string{"C19"}, func(w *World) (bool, string) {
+		var bad []string
+		for _, q := range metadataStructs {
+			pp, name := splitQual(q)
+			p := w.AllPkgs[pp]
+			if p == nil || p.Scope().Lookup(name) == nil {
+				continue
+			}
+			o := p.Scope().Lookup(name)
+			for _, t := range []types.Type{o.Type(), types.NewPointer(o.Type())} {
+				ms := types.NewMethodSet(t)
+				for i := 0; i < ms.Len(); i++ {
+					switch ms.At(i).Obj().Name() {
+					case "MarshalXML", "MarshalXMLAttr", "MarshalText":
+						bad = append(bad, name+"."+ms.At(i).Obj().Name())
+					}
+				}
+			}
+		}
+		if len(bad) > 0 {
+			return false, "custom XML encoding methods bypass the tag-driven binding: " + strings.Join(bad, ", ")
+		}
+		return true, fmt.Sprintf("%d metadata struct types are encoded by the tag-driven binding only", len(metadataStructs))
+	}},
 	{"schema.tags.xmlenc", []string{"C11", "C07"}, tagsCheck(xmlencStructs, nil)},
 	{"schema.xmlname.kinds", []string{"C10", "C01"}, func(w *World) (bool, string) {
 		names := map[string]string{}
